@@ -497,9 +497,10 @@ func (u *Unit) heap(st *State, name, sort string) Term {
 		u.heapSort[name] = sort
 		u.heapInit[name] = Term{n, sort}
 	}
-	if tag, ok := st.pending[name]; ok || st.epoch != "" {
+	if tag, ok := st.pending[name]; (ok && tag != "") || (!ok && st.epoch != "") {
 		// the state has been through a call with arbitrary effects (or one whose frame names this
 		// heap) since entry: a heap that is looked at for the first time now is NOT the entry version
+		// (a pending tag "" says: still the entry version - the heap was exempt from every such call)
 		if !ok {
 			tag = st.epoch
 		}
@@ -570,8 +571,12 @@ func (u *Unit) havocHeaps(st *State, names []string, why string) {
 			names = append(names, n)
 		}
 		sort.Strings(names)
+		st.pending = nil // superseded: everything not looked at yet now has the version of the new epoch
 	}
 	for _, n := range names {
+		if strings.HasPrefix(n, "GC:") || (strings.HasPrefix(n, "RV:") && why != "loop") {
+			continue // ghost state of map iterations is not touched by calls
+		}
 		s, ok := u.heapSort[n]
 		if !ok || st.heaps[n].S == "" {
 			// nothing has looked at this heap on this path yet: remember that the version seen from
